@@ -1008,7 +1008,10 @@ class Lowerer:
                 else:
                     out = decl + ';\n' + ''.join(I + l + '\n' for l in lines)
             else:
-                out = decl + ' = %s;\n' % self.expr(init[0])
+                # full-expression temporaries of the initialiser (e.g. a String made from a literal for a const String & parameter)
+                # are constructed before and destroyed right after the declaration, in the same block
+                pre, val, post = self.hoisted(lambda: self.expr(init[0]))
+                out = ''.join(I + l + '\n' for l in pre) + decl + ' = %s;\n' % val + ''.join(I + l + '\n' for l in post)
         if self.has_nontrivial_dtor(t):
             self.scopes[-1].append((nm, t))
         return out
